@@ -12,6 +12,9 @@
                                                  impl (0 ((#subject #issuer) ...)) | (1)
              the certificates (subject, issuer) of one PEM bundle / Java keystore, all read by
              crypto/x509, and what file.Inspect shows for each, in file order
+     seq     input (kind (item ...))            impl (0 (#text ...)) | (2)
+             the names rendered one after the other in one process: kind 0 = FromRDNSequence,
+             item = rdns; kind 1 = FromRawDN, item = (#dn parsed name)
    rdns   = ((atv ...) ...)   atv = ((arc ...) value)   arc = decimal | #big-endian bytes (>= 2^62)
    value  = (0 #s) string | (1 #be8) int64, two's complement | (2) nil | (4 #printed #marshal) other
    parsed = (0 rdns) | (1): what the library decoding used by FromRawDN returned (oracle)
@@ -62,6 +65,11 @@ Definition run_C15 (op : bytes) (input : arg) : arg :=
   else if bytes_eqb op (bs "chain") then
     AL [AZ 0; AL (map obs_pair (carrier_names
                    (map (fun c => (raw_name_of (arg_nth 0 c), raw_name_of (arg_nth 1 c))) (arg_list (arg_nth 1 input)))))]
+  else if bytes_eqb op (bs "seq") then
+    let items := arg_list (arg_nth 1 input) in
+    AL [AZ 0; AL (map AB (if arg_bool (arg_nth 0 input)
+                          then render_all_raw (map raw_name_of items)
+                          else render_all (map rdns_of_arg items)))]
   else AL [].
 
 (* ================= the spec checker =================
@@ -215,6 +223,21 @@ Fixpoint judge_chain (ins : list arg) (obs : list arg) : list arg :=
   | _, _ => []
   end.
 
+(* a sequence of names rendered in one process: every text is judged against its OWN name.
+   When a text fails and is, byte for byte, the text shown earlier in the sequence for a name
+   that was judged good, say that it is the earlier name's text (state between renderings). *)
+Fixpoint judge_seq (raw : bool) (earlier : list bytes) (items obs : list arg) : list arg :=
+  match items, obs with
+  | it :: items', AB text :: obs' =>
+      let j := if raw then judge_raw false it text
+               else judge (want_of_rdns (rdns_of_arg it)) text in
+      if is_ok j then judge_seq raw (text :: earlier) items' obs'
+      else (if existsb (bytes_eqb text) earlier
+            then AS "a name is shown with the text of a DIFFERENT name rendered earlier in the same process (something is remembered between renderings); it reads back as that other name"
+            else j) :: judge_seq raw earlier items' obs'
+  | _, _ => []
+  end.
+
 Definition first_bad (l : list arg) : arg :=
   match filter (fun a => match a with AL [] => false | _ => true end) l with
   | [] => AL []
@@ -257,5 +280,13 @@ Definition check_C15 (op : bytes) (input impl : arg) : arg :=
         if Nat.eqb (length ins) (length obs) then first_bad (judge_chain ins obs) else AL []
     | AL [AZ 2%Z] => AS "inspection panicked"
     | _ => AL []
+    end
+  else if bytes_eqb op (bs "seq") then
+    match impl with
+    | AL [AZ 0%Z; AL obs] =>
+        let items := arg_list (arg_nth 1 input) in
+        if Nat.eqb (length items) (length obs)
+        then first_bad (judge_seq (arg_bool (arg_nth 0 input)) [] items obs) else AL []
+    | _ => AS "rendering a sequence of names failed (panic)"
     end
   else AL [].
